@@ -272,14 +272,15 @@ class ZMQEventLoop(EventLoop):
         else:
             ready = dict(self._poller.poll())
 
-        if not ready:
-            if state == "idle":
+        if state == "idle":
+            if not ready:
                 self._entering_idle()
                 self._did_something = False
-            elif state == "alarm":
-                _due, _tie_break, callback = heapq.heappop(self._alarms)
-                callback()
-                self._did_something = True
+        elif state == "alarm" and (not ready or time.time() >= self._alarms[0][0]):
+            # timed out - or the alarm became due while input kept arriving
+            _due, _tie_break, callback = heapq.heappop(self._alarms)
+            callback()
+            self._did_something = True
 
         for queue in ready:
             # a watch removed by an earlier callback of this batch is not called
